@@ -32,7 +32,7 @@ def power_rows():
         if not os.path.exists(fp): continue
         t=json.load(open(fp))
         for k,r in t['rows'].items():
-            out.append(f"| {prop} | {k} | {r['cells']} | {r['nontrivial']} | {r['mass_defect_detected']}/{r['mass_defect_run']} | {r['scale_defect_detected']}/{r['scale_defect_run']} | {r['off_by_one_detected']}/{r['off_by_one_run']} | {'; '.join(r['missed_examples'][:2])} |")
+            out.append(f"| {prop} | {k} | {r['cells']} | {r['nontrivial']} | {r['mass_defect_detected']}/{r['mass_defect_run']} | {r['scale_defect_detected']}/{r['scale_defect_run']} | {r['off_by_one_detected']}/{r['off_by_one_run']} | {r.get('atom_defect_detected','-')}/{r.get('atom_defect_run','-')} | {'; '.join(r['missed_examples'][:2])} |")
     return "\n".join(out)
 appe=f'''
 ## Appendix E — power audit of the law checks (planted defects on top of the real samplers)
@@ -46,13 +46,15 @@ the origins stay mixed). Defects: **mass** — with probability 2 % a draw at
 or below the reference median is redrawn until above it (moves 1 % of the
 mass); **scale** — continuous only, x -> med + 1.03 (x − med); **off1** —
 discrete only, x -> x + 1 (informational: invisible by construction when
-every pmf value is below the resolution). The command exits 2 when a row
+every pmf value is below the resolution); **atom** — continuous only, with
+probability 2e-5 the median is returned (a rare constant fallback, visible only
+to T5; informational for f32, whose output grid needs ~19 copies). The command exits 2 when a row
 detects fewer than 90 % of the mass or scale defects or has no non-trivial
 cell. It is a diagnostic of the machinery, not a check of a property; it is
 what exposed the vacuous NIG reference and the Pert slack bug (§0).
 
-| check | family:float | cells | non-trivial | mass detected | scale detected | off-by-one detected | examples missed |
-|---|---|---|---|---|---|---|---|
+| check | family:float | cells | non-trivial | mass detected | scale detected | off-by-one detected | atom (2e-5) detected | examples missed |
+|---|---|---|---|---|---|---|---|---|
 {power_rows()}
 
 Reading: the remaining misses are f32 cells whose stated slack legitimately
